@@ -216,3 +216,64 @@ def doc_changed(lo, hi):
             if (a.doc or "").strip() != (b.doc or "").strip():
                 out.append((op, b.since_version))
     return out
+
+
+# ----------------------------------------------------------------------------- documented semantics of re-stamped operators
+# Classification of every version step whose doc string changed, made by READING the two doc strings.  Keyed by the hash of
+# the pair so that a changed doc string (another onnx) is unclassified -> the tie breaks (fail-closed).
+#   widening    : more types / ranks / a new optional input / a new enum value; nodes valid before mean what they meant
+#   neutral-attr: a new optional attribute whose default is the old behaviour (possibly together with widening)
+#   editorial   : rewording, formatting, corrected formulas that describe what implementations always did
+#   behavioural : the documented result of a node that was valid before changes
+DOC_CLASSES = {
+    ("Attention", 24, "c66facbf08"): ("widening", "new optional input nonpad_kv_seqlen; attn_mask and is_causal may now be combined (was: only one)"),
+    ("AveragePool", 19, "1fe77445cd"): ("neutral-attr", "new attribute dilations (default 1); output-shape formulas rewritten (explicit/auto padding)"),
+    ("AveragePool", 22, "e2158f5d4b"): ("behavioural", "ceil_mode: sliding windows that would start in the right padded region are ignored (output one shorter)"),
+    ("Cast", 19, "dd6fb9566a"): ("neutral-attr", "float8 destination types; attribute saturate (default 1) applies to float8 destinations only"),
+    ("Cast", 24, "0213fe081e"): ("behavioural", "saturating cast of +-Inf to E4M3FNUZ / E5M2FNUZ gives +-FLT_MAX (was NaN); FLOAT8E8M0 and round_mode added"),
+    ("DFT", 20, "b4a9e64865"): ("behavioural", "axis attribute (default 1) becomes an input (default -2)"),
+    ("DequantizeLinear", 19, "ac341d3bfb"): ("widening", "float8 types"),
+    ("DequantizeLinear", 21, "854ce22c58"): ("neutral-attr", "blocked quantization: block_size (default 0 = per-tensor/per-axis as before); int4/uint4/16-bit types"),
+    ("DequantizeLinear", 23, "dcfa068065"): ("neutral-attr", "output_dtype (default 0 = type of x_scale as before)"),
+    ("GridSample", 20, "74d1db5cd3"): ("behavioural", "mode names bilinear/bicubic -> linear/cubic and default renamed; N-D inputs"),
+    ("GroupNormalization", 21, "b698a1570c"): ("behavioural", "scale and bias per channel instead of per group; stash_type"),
+    ("MaxPool", 22, "d0bf1bcc39"): ("behavioural", "ceil_mode: sliding windows that would start in the right padded region are ignored (output one shorter)"),
+    ("Pad", 19, "40dbfde9f4"): ("widening", "new mode value wrap"),
+    ("QuantizeLinear", 19, "f59ba8c8c9"): ("neutral-attr", "float8 types; saturate (default 1, float8 only)"),
+    ("QuantizeLinear", 21, "a310b77a2f"): ("neutral-attr", "blocked quantization (block_size default 0), output_dtype (default 0), 16-bit and 4-bit types"),
+    ("QuantizeLinear", 23, "0d635ef62f"): ("neutral-attr", "x and y_scale may differ in type; precision (default 0 = as before)"),
+    ("QuantizeLinear", 25, "ea7a4874c3"): ("widening", "int2/uint2"),
+    ("ReduceMax", 20, "b391359f80"): ("widening", "boolean input (False < True)"),
+    ("ReduceMin", 20, "a76954635b"): ("widening", "boolean input (False < True)"),
+    ("Resize", 19, "6a5569cb19"): ("editorial", "formula typeset as a code block"),
+}
+_DOC_CTOR = {"widening": "DWidening", "neutral-attr": "DNeutralAttr", "editorial": "DEditorial", "behavioural": "DBehavioural"}
+
+
+def doc_steps(lo, hi):
+    """[(op, new version, hash, class or None, note)] for every step whose doc string changed"""
+    import hashlib
+    out = []
+    for op, h in histories(lo, hi).items():
+        for a, b in zip(h, h[1:]):
+            da, db = (a.doc or "").strip(), (b.doc or "").strip()
+            if da != db:
+                hsh = hashlib.sha1((da + "\0" + db).encode()).hexdigest()[:10]
+                c = DOC_CLASSES.get((op, b.since_version, hsh))
+                out.append((op, b.since_version, hsh, c[0] if c else None, c[1] if c else ""))
+    return out
+
+
+def regenerate_doc_steps(ctx, lo, hi):
+    steps = doc_steps(lo, hi)
+    missing = [(o, v, h) for o, v, h, c, _ in steps if c is None]
+    if missing:
+        ctx.tie_broken("translator", "onnx.defs/doc-strings", f"doc-changed version steps without a reading-based classification (new doc text?): {missing}")
+        return None
+    rows = "; ".join(f"({cstr(o)}, {cz(v)}, {_DOC_CTOR[c]})" for o, v, _, c, _ in steps)
+    text = ("(* GENERATED by harness/c10_schemas.py: every ai.onnx version step inside the supported range whose doc string changed, with the\n"
+            "   classification of the change made by reading both doc strings (harness/c10_schemas.DOC_CLASSES, keyed by the hash of the pair) *)\n"
+            "From Coq Require Import ZArith List String.\nImport ListNotations.\nRequire Import OV.Version.Schema.\nLocal Open Scope Z_scope.\n"
+            f"Definition doc_steps : list (string * Z * docclass) :=\n  [{rows}].\n")
+    ctx.gen("VersionDocSteps", text)
+    return steps
